@@ -615,7 +615,7 @@ package app
 //@   ensures project-logger-otherwise: !isDefinedStr(config.LogLocation) ==> p.runningProcesses[config.ReplicaName].logger == p.logger
 //@   ensures others-kept: forall k string :: k != config.ReplicaName ==> (k in p.runningProcesses <==> old(k in p.runningProcesses)) && p.runningProcesses[k] == old(p.runningProcesses[k])
 //@   ensures nolocks: noLocks() && runnerWF(p)
-//@   assigns p.runningProcesses[config.ReplicaName], config.RestartPolicy.ExitOnEnd, spawned[*], ctxCount(),
+//@   assigns p.runningProcesses[config.ReplicaName], config.RestartPolicy.ExitOnEnd, spawned[*], ctxCount(), lastLoggerOpt(), lastProcConfOpt(),
 //@           types.ProcessState.SystemTime[*], types.ProcessState.Age[*], types.ProcessState.Name[*], types.ProcessState.Mem[*], types.ProcessState.CPU[*], types.ProcessState.IsRunning[*], types.ProcessState.IsElevated[*], types.ProcessState.PasswordProvided[*]
 
 // the project's process map is keyed by replica name (established by the loader, kept by scaling)
